@@ -181,6 +181,10 @@ BASES = [
         '1040.number_1099-int': '2', '1099-int:*.box_1': '400', '1099-int:*.box_4': '40', '1099-int:*.payer': 'Same Bank',
         '1040.number_1099-div': '2', '1099-div:*.box_1a': '300', '1099-div:*.box_1b': '300', '1099-div:*.box_4': '30', '1099-div:*.payer': 'Same Fund',
     }),
+    Base('B15-low-tax-foreign-credit', ['1040'], {
+        '1040.number_dependents': '1', '1040.dependent_0_odc': 'yes',
+        '1040.number_1099-int': '1', '1099-int:0.box_1': '14000', '1099-int:0.box_6': '250', '1099-int:0.payer': 'Bank',
+    }, per_year={2021: {'1040_s8812.principal_abode_us': 'yes'}}),
     Base('B7-dense', ['1040'], {
         '1040.number_w-2': '2', 'w-2:1.belongs_to': 'spouse', '1040.filing_status': 'MarriedFilingJointly',
         '1040.number_1099-int': '1', '1040.number_1099-div': '1', '1040.number_1099-g': '1', '1040.number_1098': '1',
